@@ -82,6 +82,7 @@ structure State where
   calls : List (Nat × Ret) := []
   nextCall : Nat := 1
   outOfFuel : Bool := false
+  depth : Nat := 0                           -- `ScriptExecutionStack::stackDepth`
   deriving Inhabited
 
 namespace State
@@ -307,7 +308,7 @@ def scriptExecuteInternal : Nat → State → Nat → State
 def executeRunning : Nat → State → State
   | 0, s => { s with outOfFuel := true }
   | fuel + 1, s =>
-    if s.cur.isSome then s
+    if s.cur.isSome || s.depth > 0 then s     -- a VM activation is still on the native stack
     else if !s.timer.dirty then s
     else drain fuel s
 
@@ -329,7 +330,9 @@ def execVM : Nat → State → Nat → State
   | 0, s, _ => { s with outOfFuel := true }
   | fuel + 1, s, t =>
     let s := s.setTh t (fun th => { th with vm := .running })
+    let s := { s with depth := s.depth + 1 }          -- ScriptExecutionStack
     let s := process fuel s t
+    let s := { s with depth := s.depth - 1 }
     match s.th? t with
     | none => s
     | some th =>
@@ -467,6 +470,30 @@ def hostCall (s : State) (label : Nat) (args : List V := []) : State × String :
   -- `if (!returnValue.IsNone()) ev.AddValue(std::move(returnValue))`: still a pointer = the thread lives on
   let s := if s.getRet c == .open_ then s.setRet c .pending else s
   (s, "ok")
+
+/-- `~ScriptClass`: unlink from the director's list, then `KillThreads` (every VM is detached from the
+    instance first, so its `NotifyDelete` does not call `RemoveThread`) -/
+def killInst (s : State) (i : Nat) : State :=
+  match s.insts.find? (·.1 == i) with
+  | none => s
+  | some (_, chain) =>
+    let s := { s with insts := s.insts.filter (fun e => !(e.1 == i)) }
+    chain.foldl (fun s t => deleteThread defaultFuel (s.setTh t (fun th => { th with attached := false })) t) s
+
+/-- destroy every script instance that exists now (`ScriptMaster::ClearAll` → `FreeAll`, and
+    `DeleteProgramScript` for the only program) -/
+def killAllInsts (s : State) : State :=
+  (s.insts.map (·.1)).foldl (fun s i => killInst s i) s
+
+/-- `director.Reset()` -/
+def hostReset (s : State) : State :=
+  let s := killAllInsts s
+  { s with prog := [], progParams := [] }
+
+/-- `GetProgramScript(name, stream, recompile = true)`: instances of the old version are destroyed -/
+def hostScript (s : State) (prog : List (List Instr)) (params : List Nat) : State :=
+  let s := if s.prog.isEmpty then s else killAllInsts s
+  { s with prog := prog, progParams := params }
 
 /-- `ScriptContext::Execute()` at time scale 1 with the injected clock -/
 def hostExecute (s : State) : State :=
